@@ -291,7 +291,7 @@ pub fn run(tier: Tier, seed: u64) -> i32 {
         let fam1 = same_hash_family("ab", ".txt", 30, seed);
         let mut fam = fam1.clone();
         fam.extend(same_hash_family("x", "", 20, seed ^ 99));
-        let n = tier.pick(3000u32, 80000u32);
+        let n = tier.pick(8000u32, 80000u32);
         let b = run::run_random(
             "random_colliding_populations",
             seed,
